@@ -143,7 +143,9 @@ def extract(repo="/repo", all_targets=False, log=sys.stderr):
     build_driver(log)
     key = tree_hash(repo, all_targets)
     out = os.path.join(CACHE_DIR, key)
-    lock_path = os.path.join(CACHE_DIR, ".lock")
+    if os.path.exists(os.path.join(out, "STATUS")):
+        return out
+    lock_path = os.path.join(CACHE_DIR, ".lock-" + key)       # one lock per tree: different trees extract concurrently
     with open(lock_path, "w") as lk:
         fcntl.flock(lk, fcntl.LOCK_EX)
         if not os.path.exists(os.path.join(out, "STATUS")):
@@ -155,6 +157,10 @@ def extract(repo="/repo", all_targets=False, log=sys.stderr):
             os.rename(tmp_out, out)
             log.write("[facts] extracted %s in %.1fs -> %s\n" % (repo, time.time() - t0, out))
             _prune_cache(keep=out)
+    try:
+        os.remove(lock_path)
+    except OSError:
+        pass
     return out
 
 
